@@ -704,3 +704,115 @@ Theorem pinned_remove_at_overlap : vinv pinned_w /\ vrep pinned_w [[1%N]; [2%N];
 Proof. split; [apply pinned_w_ok|]. split; [apply pinned_w_ok|]. vm_compute. auto. Qed.
 Theorem pinned_resize0_unusable : vinv pinned_w /\ vobjsize (fst (vresize_pinned pinned_w 0)) = 0 /\ ~ vinv (fst (vresize_pinned pinned_w 0)).
 Proof. split; [apply pinned_w_ok|]. split; [reflexivity|]. intros (H & _). cbn in H. lia. Qed.
+
+(* ------------------------------------------------------------------------------------------------ *)
+(* L. addat with the vector's own element as the new element (the pointer getat(j, false) returned)     *)
+Lemma voverlap_below dst src len : src + len <= dst -> voverlap dst src len = false.
+Proof.
+  intros H. unfold voverlap. destruct (0 <? len); [|reflexivity]. cbn [andb].
+  destruct (dst <? src + len) eqn:E; [apply Nat.ltb_lt in E; lia | reflexivity].
+Qed.
+
+Lemma vaddself_at_ref s l index q : R s l -> (Z.of_nat (vnum s) < 2 ^ 31)%Z -> vint index -> q < length l ->
+  exists s', vaddself_at s index (Z.of_nat q) = Ok (s', vobs_map VByte (snd (vs_add l index (nth q l [])))) /\
+             R s' (fst (vs_add l index (nth q l []))) /\ vobjsize s' = vobjsize s.
+Proof.
+  intros HR Hn Hi Hq. set (d := nth q l []).
+  assert (Hd : length d = vobjsize s).
+  { pose proof (R_elen _ _ HR) as He. unfold elen in He. rewrite Forall_forall in He. apply He. apply nth_In. exact Hq. }
+  unfold vaddself_at, vs_add. rewrite (norm_idx _ _ Hn Hi), (ins_check _ _ Hn (vpos_range _ _ Hn Hi)).
+  pose proof (R_len _ _ HR) as Ln. rewrite Ln.
+  destruct (vins_pos (vnum s) index) as [p|] eqn:E.
+  2:{ unfold vins_pos in E. destruct ((0 <=? vpos (vnum s) index)%Z && (vpos (vnum s) index <=? Z.of_nat (vnum s))%Z); [discriminate|].
+      cbn [negb]. exists s. cbn. auto. }
+  destruct (ins_pos_le _ _ _ E) as [Hp Hpos]. unfold vins_pos in E.
+  destruct ((0 <=? vpos (vnum s) index)%Z && (vpos (vnum s) index <=? Z.of_nat (vnum s))%Z); [|discriminate]. clear E.
+  cbn [negb]. rewrite Hpos.
+  set (s1 := if vmax s <=? vnum s then _ else s).
+  assert (H1 : R s1 l /\ vnum s1 = vnum s /\ vnum s1 < vmax s1 /\ vobjsize s1 = vobjsize s).
+  { unfold s1. destruct (vmax s <=? vnum s) eqn:Eg.
+    - apply Nat.leb_le in Eg. match goal with |- context[vresize s ?m] => set (newmax := m) end.
+      assert (Hg : vmax s < newmax).
+      { unfold newmax. destruct HR as [(_ & _ & I3 & _) _]. destruct (vpol s); [lia | specialize (I3 eq_refl); lia | lia]. }
+      destruct (vresize_ref s l newmax HR) as (_ & HR' & Ho & Hm & Hnum & _).
+      destruct HR as [(_ & I2 & _) _].
+      rewrite firstn_all2 in HR' by lia. rewrite Hm, Hnum. split; [exact HR'|]. split; [lia|]. split; [lia | exact Ho].
+    - apply Nat.leb_gt in Eg. auto. }
+  clearbody s1. destruct H1 as (HR1 & Hn1 & Hlt & Ho1).
+  destruct (R_some _ _ HR1 ltac:(lia)) as [b Hb]. rewrite Hb.
+  destruct (R_data _ _ _ HR1 Hb) as (junk & Hbb & Lb & LF).
+  destruct (split_le l p ltac:(lia)) as (l1 & l2 & Hl & L1).
+  pose proof (R_elen _ _ HR1) as He. rewrite Hl in He. apply elen_app in He. destruct He as [He1 He2].
+  assert (L2 : length l2 = vnum s - p) by (rewrite <- Ln, Hl, app_length; lia).
+  rewrite int_of_size_id by lia. rewrite Hn1.
+  replace (Z.to_nat (Z.of_nat (vnum s) - Z.of_nat p)) with (length l2) by lia.
+  set (os := vobjsize s1) in *.
+  assert (Hjunk : os <= length junk).
+  { assert ((vnum s1 + 1) * os <= vmax s1 * os) by (apply Nat.mul_le_mono_r; lia).
+    rewrite Hbb, app_length, LF in Lb. lia. }
+  assert (LF1 : length (F l1) = p * os) by (rewrite (length_F _ _ He1), L1; reflexivity).
+  assert (LF2 : length (F l2) = length l2 * os) by (apply length_F; exact He2).
+  rewrite Hbb, Hl, F_app, <- app_assoc.
+  rewrite (vshift_up_ref os (F l1) p LF1 l2 junk He2 Hjunk) by lia. cbn [bind].
+  set (gap := firstn os (F l2 ++ junk)).
+  assert (Lgap : length gap = os) by (unfold gap; rewrite firstn_length_le; [reflexivity | rewrite app_length; lia]).
+  assert (LE : length (map VByte d) = os) by (rewrite map_length, Hd; symmetry; exact Ho1).
+  rewrite (size_of_int_nat p) by lia.
+  (* the read of the own element, wherever the shift left it *)
+  assert (Hrd : exists src, size_of_int (if (Z.of_nat p <=? Z.of_nat q)%Z then (Z.of_nat q + 1)%Z else Z.of_nat q) = src /\
+                 voverlap (p * os) (src * os) os = false /\
+                 vrd (F l1 ++ gap ++ F l2 ++ skipn os junk) (src * os) os = Ok (map VByte d)).
+  { destruct (Z.leb_spec (Z.of_nat p) (Z.of_nat q)) as [Hle|Hlt'].
+    - (* in l2: one slot up *)
+      exists (S q). split; [apply size_of_int_nat1; lia|].
+      split; [apply voverlap_far; nia|].
+      assert (Hq2 : q - p < length l2) by (rewrite Hl, app_length in Hq; lia).
+      destruct (split_at l2 (q - p) Hq2) as (a & e & c & Hl2 & La).
+      assert (De : d = e).
+      { unfold d. rewrite Hl, app_nth2 by lia. rewrite L1, Hl2. apply nth_mid. exact La. }
+      rewrite Hl2 in He2. apply elen_app in He2. destruct He2 as [Hea Hec]. apply elen_cons in Hec. destruct Hec as [Lee Hec].
+      rewrite Hl2, F_app, F_cons, <- !app_assoc.
+      replace (F l1 ++ gap ++ F a ++ map VByte e ++ F c ++ skipn os junk)
+        with ((F l1 ++ gap ++ F a) ++ map VByte e ++ (F c ++ skipn os junk)) by (rewrite <- !app_assoc; reflexivity).
+      rewrite De. apply vrd_mid; [|rewrite map_length; symmetry; exact Lee].
+      rewrite !app_length, LF1, Lgap, (length_F _ _ Hea), La. nia.
+    - (* in l1: untouched *)
+      exists q. split; [apply size_of_int_nat; lia|].
+      split; [apply voverlap_below; nia|].
+      assert (Hq1 : q < length l1) by lia.
+      destruct (split_at l1 q Hq1) as (a & e & c & Hl1 & La).
+      assert (De : d = e).
+      { unfold d. rewrite Hl, app_nth1 by lia. rewrite Hl1. apply nth_mid. exact La. }
+      rewrite Hl1 in He1. apply elen_app in He1. destruct He1 as [Hea Hec]. apply elen_cons in Hec. destruct Hec as [Lee Hec].
+      rewrite Hl1, F_app, F_cons, <- !app_assoc.
+      rewrite De. apply vrd_mid; [|rewrite map_length; symmetry; exact Lee].
+      rewrite (length_F _ _ Hea), La. lia. }
+  destruct Hrd as (src & -> & Hov & Hrd).
+  unfold vmemcpy. rewrite (Nat.mul_comm p os), (Nat.mul_comm src os) in *.
+  rewrite Hov. unfold vmemmove. rewrite Hrd. cbn [bind].
+  rewrite (vwr_mid (F l1) gap (map VByte d)).
+  2:{ rewrite LF1. lia. }
+  2:{ rewrite LE, Lgap. reflexivity. }
+  cbn [bind]. eexists. split; [reflexivity|]. cbn [fst snd]. split; [|exact Ho1].
+  unfold vinsert. rewrite (firstn_exact _ _ _ L1), (skipn_exact _ _ _ L1).
+  destruct HR1 as [(I1 & I2 & I3 & I4) _].
+  apply (R_intro _ _ (skipn os junk)); cbn [vset_data vobjsize vnum vmax vpol vinitnum vdata]; auto.
+  - lia.
+  - rewrite F_app, F_cons, <- !app_assoc. reflexivity.
+  - fold os. rewrite <- Lb, Hbb, Hl, !F_app, F_cons, !app_length, skipn_length, map_length. lia.
+  - rewrite <- Ln, Hl, !app_length. cbn [length]. lia.
+  - apply elen_app. split; [exact He1|]. apply elen_cons. split; [unfold os in *; congruence | exact He2].
+Qed.
+
+(* addat(v, i, getat(v, j, false)) = "insert a copy of what position j holds at position i", and nothing at all when j names no element *)
+Theorem addself_refines s l i j : vinv s -> vrep s l -> (Z.of_nat (vnum s) < 2 ^ 31)%Z -> vint i -> vint j ->
+  exists s', vaddself s i j = Ok (s', vobs_map VByte (snd (vs_addself l i j))) /\ vinv s' /\ vrep s' (fst (vs_addself l i j)) /\
+             vobjsize s' = vobjsize s.
+Proof.
+  intros Hv Hr Hn Hi Hj. assert (HR : R s l) by (split; assumption).
+  unfold vaddself, vs_addself. rewrite (vget_index_spec _ _ _ HR Hn Hj).
+  destruct (vacc_pos (length l) j) as [q|] eqn:E.
+  - destruct (acc_pos_lt _ _ _ E) as [Hq _].
+    destruct (vaddself_at_ref s l i q HR Hn Hi Hq) as (s' & H1 & [Hv' Hr'] & Ho). exists s'. auto.
+  - exists s. cbn [fst snd vobs_map]. auto.
+Qed.
